@@ -13,7 +13,7 @@ file   ::= a … h              rank  ::= 1 … 8
 check  ::= '+' | '#'          annot ::= '!' | '?'
 ```
 
-`SanShape.wf` admits every combination of the optional parts (this is the language the implementation's parser must
+`SanShape.wf` allows every combination of the optional parts (this is the language the implementation's parser must
 read); `SanShape.standard` is the sublanguage a standard SAN *writer* produces (a pawn move carries no piece letter
 and no source rank, a pawn capture names its source file, only pawns promote, a piece move does not promote).
 Core Lean only.
